@@ -529,13 +529,14 @@ prop('C11', 'other',
      '(INT, kernel/div_ by contract); atan is bounded by the library pi/2 constant, has the sign of its argument, is 0 at '
      '0, saturates to pi/2 above 2^18 and has no overflow for ANY finite argument (INT over the segment contracts); '
      'atan(-x) == -atan(x) (CBMC lemma, kernels under the determinism abstraction); atan2 satisfies the quadrant, sign, '
-     'axis and NaN clauses for all |y|,|x| < 2^31 (INT over the contracts of atan and operator/). Accuracy (5e-5, 8e-5) '
+     'axis and NaN clauses for all |y|,|x| < 2^31 (INT over the contracts of atan and operator/) and, for x != 0, equals exactly '
+     'atan(y/x), plus or minus the library pi in the left half-plane (INT lemma for all pairs; reduces its accuracy to C03 and atan). Accuracy (5e-5, 8e-5) '
      'needs the real arctangent and monotonicity is a forall-forall relation over non-linear kernels: both are decided '
      'by native stand-ins (atan: every raw x in [0, 2^34) in the thorough tier, above which atan is the constant pi/2; '
      'a structured subset in the quick tier; atan2: structured/random pairs, bounded). In the THOROUGH tier the arithmetic '
      'half of the kernel is additionally proved: on its whole call domain [0, 7/16) atan<16> differs from the exact '
      'polynomial z - z^3/3 + ... - z^11/11 (128-bit integer evaluation) by at most 1.25 ulp (7 slices, CBMC/kissat, ~4 min).',
-     technique='CBMC contracts + kissat (kernel), INT back end (segments, bound, atan2 clauses), UF lemma (oddness); native stand-ins for accuracy and monotonicity',
+     technique='CBMC contracts + kissat (kernel), INT back end (segments, bound, atan2 clauses, atan2 factorisation lemma), UF lemma (oddness); native stand-ins for accuracy and monotonicity',
      assumptions=['glibc atanl/atan2l (long double) as the accuracy oracle of the stand-ins',
                   'atan2 accuracy on the full pair domain rests on the staged paper argument (quotient within 1 ulp by C03, |atan\'| <= 1, atan accuracy) plus the bounded native sample'])
 ATAN_K = '_ZN9fixedmath6detail4atanILi16EEEll'
@@ -557,6 +558,8 @@ for _k, _lo in enumerate(range(0, 28672, 4096)):
       note='kernel vs exact polynomial, slice [%d, %d)' % (_lo, _lo + 4096))
 U('C11', 'c11.odd', 'lem_c11_odd', 'pre_valid1', None, lemma=True, cxx='lem_c11_odd($1)',
   replace=[(ATAN_K, 'UF:pre_atan_k', 'post_atan_k')] + [(K_ATAN_SUM[i][0], 'UF:' + K_ATAN_SUM[i][1], K_ATAN_SUM[i][2]) for i in range(4)], backends=('sat', 'kissat'), timeout=300)
+U('C11', 'c11.atan2_factors', 'lem_c11_atan2_factors', 'pre_c11_atan2', None, lemma=True, cxx='lem_c11_atan2_factors($1,$2)',
+  replace=[(ATAN, 'UFR:pre_valid1', 'post_atan'), (DIVF, 'UFR:pre_c01', 'post_div_mul'), I2F_L], **INTQ)
 U('C11', 'c11.atan2', ATAN2, 'pre_c11_atan2', 'post_atan2', replace=[K_ATAN, K_DIVF, I2F_L], cxx='fixedmath::atan2($1,$2)', **INTQ)
 
 
